@@ -1,9 +1,102 @@
 import Driver.Proto
+import Driver.C01
+import Driver.Rx
+import ScrapliModel.Auth
+import ScrapliModel.AuthTable
+import ScrapliModel.Generated.Patterns
+import ScrapliModel.Generated.Consts
 namespace Driver.C10
-open Scrapli
+open Driver.C01
+open Scrapli Scrapli.Chan Scrapli.Auth
 
-/-- line-protocol handler for property C10 (arguments after the leading `c10` token) -/
+/-- the named field of `sshErrorMessagePatterns`, run by the regex engine -/
+def c10rx (name : String) (b : Bytes) : Bool :=
+  match lookupRe ("Channel." ++ name) with
+  | some re => Rx.isMatch re b
+  | none => false
+
+/-- the matchers of the code: extracted patterns + extracted ssh failure table -/
+def c10pats : Pats :=
+  { promptP := fun b => Rx.isMatch Gen.Rx.Channel.promptPattern b,
+    userP := fun b => Rx.isMatch Gen.Rx.Channel.username b,
+    passP := fun b => Rx.isMatch Gen.Rx.Channel.password b,
+    phraseP := fun b => Rx.isMatch Gen.Rx.Channel.passphrase b,
+    sshErr := sshErrGen c10rx }
+
+def c10cfg (depth : Nat) (ret user pass phrase : Bytes) : Auth.Cfg :=
+  { depth := depth, ret := ret, user := user, pass := pass, phrase := phrase,
+    uMax := Gen.Channel.usernameSeenMax, pMax := Gen.Channel.passwordSeenMax,
+    ppMax := Gen.Channel.passphraseSeenMax }
+
+def kindOfStr : String → Option Kind
+  | "q" => some .quiet | "e" => some .err | "p" => some .prompt
+  | "u" => some .user | "w" => some .pass | "f" => some .phrase
+  | _ => none
+
+def outcomeStr : Outcome → String
+  | .ok => "nil" | .auth => "auth" | .connection => "connection" | .timeout => "timeout"
+  | .stuck => "stuck"
+
+def whatStr : What → String
+  | .user => "u" | .pass => "w" | .phrase => "f" | .ret => "r"
+
+def parseStages : List String → Option (List Stage)
+  | [] => some []
+  | k :: c :: t => do
+    let kind ← kindOfStr k
+    let chunks ← hexList c
+    let rest ← parseStages t
+    pure (⟨kind, chunks.map (normalizeChunk stripAnsi)⟩ :: rest)
+  | _ => none
+
+def showLines (l : List (What × Bytes)) : String :=
+  if l.isEmpty then "." else ",".intercalate (l.map fun (w, d) => whatStr w ++ ":" ++ toHex d)
+
+def writesOf : List Ev → List Bytes
+  | [] => []
+  | .write _ d _ :: t => d :: writesOf t
+  | _ :: t => writesOf t
+
+def redactedOk : List Ev → Bool
+  | [] => true
+  | .write w _ r :: t => (r == (w != .ret)) && redactedOk t
+  | _ :: t => redactedOk t
+
+/-- `c10 open <s|t> <depth> <user> <pass> <phrase> <ret> (<kind> <chunks>)+` →
+    `<dom> <spec> <speclines> <outcome> <closed> <writes> <credlines> <buf> <first> <found> <paired>`
+    `c10 ssherr <hex>` → 0/1; `c10 consts` → the three extracted limits -/
 def handleC10 : List String → String
+  | "open" :: fl :: depth :: user :: pass :: phrase :: ret :: st =>
+    match depth.toNat?, fromHex user, fromHex pass, fromHex phrase, fromHex ret, parseStages st with
+    | some d, some user, some pass, some phrase, some ret, some (first :: rest) =>
+      let flv : Flavour := if fl == "s" then .ssh else .telnet
+      let cfg := c10cfg d ret user pass phrase
+      let P := c10pats
+      let dom := match flv with
+        | .ssh => wfSSH P first rest
+        | .telnet => wfTel P cfg.depth first rest
+      let kinds := rest.map (·.kind)
+      -- the specification uses the limits the PROPERTY fixes ("at most twice"), the model those of the code
+      let pcfg := { cfg with uMax := 2, pMax := 2, ppMax := 2 }
+      let sp := spec pcfg 0 0 0 first.kind kinds
+      let sl := specLines pcfg 0 0 0 first.kind kinds
+      let r := openScript flv P cfg first rest
+      let lg := login flv P cfg scriptReact (rest.map (·.chunks)) first.chunks
+      let firstRead := readUntil (fun rb => P.promptP (window rb cfg.depth)) r.queue []
+      let (fst, found) := match firstRead with
+        | none => ("none", "none")
+        | some (b, _) => (toHex b, match Rx.findBytes Gen.Rx.Channel.promptPattern b with
+            | some m => toHex m
+            | none => "none")
+      let buf := if r.outcome == .ok then toHex lg.buf else "none"
+      s!"{b2s dom} {outcomeStr sp} {showLines sl} {outcomeStr r.outcome} {b2s r.closed} {showHexList (writesOf r.trace)} {showLines (credLines r.trace)} {buf} {fst} {found} {b2s (paired P cfg none r.trace && redactedOk r.trace)}"
+    | _, _, _, _, _, _ => "bad-op"
+  | ["consts"] =>
+    s!"{Gen.Channel.usernameSeenMax} {Gen.Channel.passwordSeenMax} {Gen.Channel.passphraseSeenMax}"
+  | ["ssherr", h] =>
+    match fromHex h with
+    | some b => b2s (c10pats.sshErr b)
+    | none => "bad-op"
   | _ => "bad-op"
 
 end Driver.C10
